@@ -188,6 +188,8 @@ class ContractMixin:
                 wl = self.new_list(st, wk.target.elem, fresh("wlen", I), fresh("warr", z3.ArraySort(I, wk.target.elem.sort())))
             else:
                 wl = self.fresh_value("wit_" + wname, wk, st)
+                if self.comp_oracle_stack:
+                    self._collect_consts(wl, self.comp_oracle_stack[-1])
             self.no_frame = nf
             env2[wname] = wl
         for lab, txt in c.ensures.items():
